@@ -394,6 +394,33 @@ example : ForNode.cellText 3 2 0 "a".toList = "<tr class=\"row1\"><td class=\"co
     ForNode.cellText 3 2 1 "b".toList = "<td class=\"col2\">b</td></tr>".toList ∧
     ForNode.cellText 3 2 2 "c".toList = "<tr class=\"row2\"><td class=\"col1\">c</td></tr>".toList := by decide
 
+/-- **else runs exactly when nothing is selected — and in the enclosing scope.** With an empty
+selection the tag is exactly its `else` body rendered where the tag stands: no iteration frame, and
+an interrupt the `else` body raises is NOT consumed (a `break` there belongs to the enclosing
+loop); with a non-empty selection the `else` body is not rendered at all. -/
+theorem C05_else_iff_empty (fuel : Nat) (env : Env) (x : Str) (rng : RangeE) (limit offset : Option Expr)
+    (rev : Bool) (body : Tmpl) (els : Option Tmpl) (rt : Rt) (w : W) (arr : List V) (lim off : Option Nat)
+    (hr : rng.eval rt.layers = .ok arr) (hl : evalAttr rt.layers limit = .ok lim)
+    (ho : evalAttr rt.layers offset = .ok off) :
+    (selectSpec arr lim (off.getD 0) rev = [] →
+      renderN (fuel + 1) env (.for_ x rng limit offset rev body els) rt w =
+        (match els with
+         | some t => renderList (renderN fuel env) t rt w
+         | none => (.ok (), rt, w))) ∧
+    (selectSpec arr lim (off.getD 0) rev ≠ [] →
+      renderN (fuel + 1) env (.for_ x rng limit offset rev body els) rt w =
+        loopItems (forStep x (selectSpec arr lim (off.getD 0) rev).length
+          ((rt.layers.tryGet [.str "forloop".toList]).getD .nil) (renderList (renderN fuel env) body))
+          (selectSpec arr lim (off.getD 0) rev) 0 rt w) := by
+  rw [← C05_window]
+  constructor
+  · intro he
+    cases els <;> simp [renderN, M.run_bind, hr, hl, ho, he]
+  · intro hne
+    cases hs : iterArray arr lim (off.getD 0) rev with
+    | nil => exact absurd hs hne
+    | cons v r => simp [renderN, M.run_bind, hr, hl, ho, hs]
+
 /-- non-vacuity: a literal three-element array with `offset:1` on a fresh runtime -/
 example : ∃ rt' w', renderN 2 {} (.for_ "x".toList (.arr (.lit (.arr [iV 1, iV 2, iV 3]))) none (some (.lit (iV 1))) false
       [.output (.var "x".toList []) []] none) (Rt.build []) {} = (.ok (), rt', w') ∧ w'.text = "23".toList := by
